@@ -57,6 +57,10 @@ for pr in props:
     if sd.exists():
         m = json.loads(sd.read_text())
         sdt = "missed, then check strengthened" if m.get("note") else ("caught (monitor only in quick)" if "no-failing-input-found" in m["detected_by"] else "caught")
+    sd2 = V / "seeded" / f"{pid}-2" / "meta.json"
+    if sd2.exists():
+        m2 = json.loads(sd2.read_text())
+        sdt += "; round 2: " + ("missed, then check strengthened" if m2.get("note") else "caught")
     rows.append(f"| {pid} | {'proof' if pid in claimed else 'not claimed'} | {th} | {cases} | {fx} | {kn} | {sdt} |")
 block("STATUS", "\n".join(rows))
 (V / "DESIGN.md").write_text(d)
